@@ -21,9 +21,34 @@ def mkFrame (code : List Instr) (vars : List (Name × Val) := []) (exitB : Optio
     (errB : Option Beh := none) (globals : Nat := 0) : Frame :=
   { code := code, vars := vars, exitB := exitB, errB := errB, globals := globals }
 
-def M.pushFrame (m : M) (f : Frame) : M := { m with ctx := m.ctx.pushF f }
 def M.top? (m : M) : Option Frame := m.ctx.top?
-def M.setTop (m : M) (f : Frame) : M := { m with ctx := m.ctx.setTop f }
+
+/-! ### effects of an operator on the context
+
+Operators never rebuild the frame stack or the value stack themselves: they return a list of
+*effects*, and `applyEff` is the only place where an operator's effect reaches the stacks. Frames
+handed back by an operator keep the `base` they had (`withBases`), so no operator can move a
+region boundary. -/
+
+inductive Eff where
+  /-- `context.push_frame(f)` -/
+  | pushFrame (f : Frame)
+  /-- update fields of the current frame (variables, scope name, position, die flag) -/
+  | setTop (f : Frame)
+  /-- update variables of several frames (same number of frames, bases kept) -/
+  | setFrames (fs : List Frame)
+  /-- leave the current scope (`clear_values(); pop_frame()`) -/
+  | popClear
+  /-- leave `k` scopes -/
+  | popClearN (k : Nat)
+  /-- `throw`: hand a value to the error behaviour of frame `idx` -/
+  | throwTo (idx : Nat) (v : Val)
+
+/-- new frames take the bases of the old ones -/
+def withBases : List Frame → List Frame → List Frame
+  | old :: olds, new :: news => { new with base := old.base } :: withBases olds news
+  | olds, [] => olds
+  | [], _ => []
 
 /-- element `i` of a list, `nil` when out of range (`vector::at` would throw; the callers guard) -/
 def nth (xs : List Val) (i : Nat) : Val := xs.getD i .nil
@@ -96,407 +121,548 @@ def popClearN : Nat → Ctx → Ctx
   | 0, c => c
   | n + 1, c => popClearN n (popClear c)
 
-/-- `breakout_any_string`: pop the frames up to and including the one named `target`, each together
-    with its region of the value stack. `none`: no such scope. -/
-def breakOutCtx (c : Ctx) (target : Name) : Option Ctx :=
-  match findScope c.frames target 0 with
-  | some k => some (popClearN (k + 1) c)
-  | none => none
-
 def findRecover : List Frame → Nat → Option Nat
   | [], _ => none
   | f :: fs, i => if f.errB.isSome then some i else findRecover fs (i + 1)
+
+/-- replace frame `idx` (0 = top) keeping its base -/
+def Ctx.setFrameAt (c : Ctx) (idx : Nat) (f : Frame) : Ctx :=
+  match c.frames[idx]? with
+  | some old => { c with frames := c.frames.set idx { f with base := old.base } }
+  | none => c
+
+/-- drop the `k` topmost frames *without* touching the value stack (error unwinding: the operands of
+    the dropped frames stay in the region of the handler frame until it clears or completes) -/
+def Ctx.dropFrames (c : Ctx) (k : Nat) : Ctx := { c with frames := c.frames.drop k }
 
 /-- result of `frame::recover_runtime_error` -/
 inductive Recover where
   | ok | done | error
 
 /-- `frame::recover_runtime_error` applied to frame number `idx` (0 = top) while the frames above it
-    are still on the stack (as `throw` does) -/
-def recoverAt (m : M) (idx : Nat) : M × Recover :=
-  match m.ctx.frames[idx]? with
-  | none => (m, .error)
+    are still on the stack (as `throw` does); `errFlag` = `runtime.__runtime_error()` -/
+def recoverAt (c : Ctx) (errFlag : Bool) (idx : Nat) : Ctx × Recover :=
+  match c.frames[idx]? with
+  | none => (c, .error)
   | some fr =>
     match fr.errB with
-    | none => (m, .error)
+    | none => (c, .error)
     | some (.catchB handler) =>
-      if m.err then (m, .error)
+      if errFlag then (c, .error)
       else
         -- pop_value / clear_values act on the *current* (top) frame's region
-        let (val, c1) := match m.ctx.popV with
-          | some (v, c) => (some v, c)
-          | none => (none, m.ctx)
+        let (val, c1) := match c.popV with
+          | some (v, c') => (some v, c')
+          | none => (none, c)
         let c2 := c1.clearV
         let exn := match val with
           | some (.strace p) => p
           | _ => .nil
-        let fr' := { fr with vars := [(n!"_exception", exn)], code := handler, pc := 0 }
-        ({ m with ctx := { c2 with frames := c2.frames.set idx fr' } }, .ok)
+        (c2.setFrameAt idx { fr with vars := [(n!"_exception", exn)], code := handler, pc := 0 }, .ok)
     | some (.exceptB handler exchanged) =>
-      if exchanged then (m, .error)
+      if exchanged then (c, .error)
       else
-        let (val, c1) := match m.ctx.popV with
-          | some (v, c) => (some v, c)
-          | none => (none, m.ctx)
+        let (val, c1) := match c.popV with
+          | some (v, c') => (some v, c')
+          | none => (none, c)
         let c2 := c1.clearV
-        let fr' := { fr with vars := [(n!"_exception", val.getD .nil)], code := handler, pc := 0,
-                             errB := some (.exceptB handler true) }
-        ({ m with ctx := { c2 with frames := c2.frames.set idx fr' } }, .ok)
-    | some _ => (m, .ok)
+        (c2.setFrameAt idx { fr with vars := [(n!"_exception", val.getD .nil)], code := handler, pc := 0,
+                                     errB := some (.exceptB handler true) }, .ok)
+    | some _ => (c, .ok)
+
+/-- the stack part of `throw_any`; the Boolean tells whether the handler took over -/
+def throwCtx (c : Ctx) (errFlag : Bool) (idx : Nat) (v : Val) : Ctx × Bool :=
+  let valpos := c.vals.length
+  let c1 := c.pushV (.strace v)
+  match recoverAt c1 errFlag idx with
+  | (c2, .error) =>
+    (if valpos > 0 then (match c2.popV with | some (_, c3) => c3 | none => c2) else c2, false)
+  | (c2, _) => (c2.dropFrames idx, true)
+
+/-- the only place where an operator's effect reaches the stacks -/
+def applyEff (e : Eff) (m : M) : M :=
+  match e with
+  | .pushFrame f => { m with ctx := m.ctx.pushF f }
+  | .setTop f =>
+    match m.ctx.frames with
+    | old :: _ => { m with ctx := m.ctx.setTop { f with base := old.base } }
+    | [] => m
+  | .setFrames fs => { m with ctx := { m.ctx with frames := withBases m.ctx.frames fs } }
+  | .popClear => { m with ctx := popClear m.ctx }
+  | .popClearN k => { m with ctx := popClearN k m.ctx }
+  | .throwTo idx v =>
+    match throwCtx m.ctx m.err idx v with
+    | (c, true) => { m with ctx := c }
+    | (c, false) => ({ m with ctx := c }).log Diag.runtime_ErrorMessage
+
+def applyEffs : List Eff → M → M
+  | [], m => m
+  | e :: es, m => applyEffs es (applyEff e m)
+
+/-- what an operator returns: the machine with its non-stack changes (diagnostics, heap, namespaces),
+    the stack effects, and the value `call_*` pushes afterwards -/
+abbrev OpRes := M × List Eff × Val
+
+def pure' (m : M) (v : Val) : Option OpRes := some (m, [], v)
+def frame' (m : M) (f : Frame) : Option OpRes := some (m, [.pushFrame f], .nil)
 
 /-- `throw_any` -/
-def throwAny (m : M) (v : Val) : M × Val :=
+def throwAny (m : M) (v : Val) : Option OpRes :=
   match findRecover m.ctx.frames 0 with
-  | none => (m.log Diag.runtime_ErrorMessage, .nil)
-  | some idx =>
-    let valpos := m.ctx.vals.length
-    let m1 := { m with ctx := m.ctx.pushV (.strace v) }
-    match recoverAt m1 idx with
-    | (m2, .error) =>
-      let m3 := if valpos > 0 then (match m2.ctx.popV with | some (_, c) => { m2 with ctx := c } | none => m2) else m2
-      (m3.log Diag.runtime_ErrorMessage, .nil)
-    | (m2, _) => ({ m2 with ctx := { m2.ctx with frames := m2.ctx.frames.drop idx } }, .nil)
+  | none => some (m.log Diag.runtime_ErrorMessage, [], .nil)
+  | some idx => some (m, [.throwTo idx v], .nil)
+
+/-- `breakout_any_string` -/
+def breakOut (m : M) (l : Val) (s : Name) : Option OpRes :=
+  if s.isEmpty then some (m, [.popClear], l)
+  else match findScope m.ctx.frames s 0 with
+    | some k => some (m, [.popClearN (k + 1)], l)
+    | none => some (m.log Diag.runtime_ScopeNameNotFound, [], .nil)
 
 /-! ### nular operators -/
 
-def nularOp (n : Name) (m : M) : Option (M × Val) :=
-  if n == n!"missionnamespace" then some (m, .ns 0)
-  else if n == n!"uinamespace" then some (m, .ns 1)
-  else if n == n!"parsingnamespace" then some (m, .ns 2)
-  else if n == n!"profilenamespace" then some (m, .ns 3)
-  else if n == n!"nil" then some (m, .nil)
-  else if n == n!"cansuspend" then some (m, .bool m.ctx.canSuspend)
-  else if n == n!"currentnamespace" then some (m, .ns (match m.top? with | some f => f.globals | none => 0))
+def nularOp (n : Name) (m : M) : Option OpRes :=
+  if n == n!"missionnamespace" then pure' m (.ns 0)
+  else if n == n!"uinamespace" then pure' m (.ns 1)
+  else if n == n!"parsingnamespace" then pure' m (.ns 2)
+  else if n == n!"profilenamespace" then pure' m (.ns 3)
+  else if n == n!"nil" then pure' m .nil
+  else if n == n!"cansuspend" then pure' m (.bool m.ctx.canSuspend)
+  else if n == n!"currentnamespace" then pure' m (.ns (match m.top? with | some f => f.globals | none => 0))
   else none
 
 /-! ### unary operators -/
 
-def privateNames (m : M) (names : List Name) : M :=
+def privateNames (m : M) (names : List Name) : Option OpRes :=
   match m.top? with
-  | none => m
-  | some f => m.setTop { f with vars := names.foldl varsTouch f.vars }
+  | none => pure' m .nil
+  | some f => some (m, [.setTop { f with vars := names.foldl varsTouch f.vars }], .nil)
 
-def unaryOp (n : Name) (r : Val) (m : M) : Option (M × Val) :=
-  if n == n!"call" then
-    match r with
-    | .code is =>
-      let this := (m.ctx.getVar n!"_this").getD .nil
-      some (m.pushFrame (mkFrame is [(n!"_this", this)]), .nil)
-    | _ => none
-  else if n == n!"count" then
-    match r with
-    | .ref id => some (m, num (m.arr id).length)
-    | _ => none
-  else if n == n!"if" then
-    match r with
-    | .bool b => some (m, .ifv b)
-    | _ => none
-  else if n == n!"while" then
-    match r with
-    | .code c => some (m, .whilev c)
-    | _ => none
-  else if n == n!"for" then
-    match r with
-    | .str s => some (m, .forv s Dec.zero Dec.zero (Dec.ofNat 1))
-    | _ => none
-  else if n == n!"switch" then some (m, .sw r false false [])
-  else if n == n!"try" then
-    match r with
-    | .code c => some (m, .exc c)
-    | _ => none
-  else if n == n!"private" then
-    match r with
-    | .str s => some (privateNames m [s], .nil)
-    | .ref id =>
-      let xs := m.arr id
-      let bad := xs.filter (fun v => match v with | .str _ => false | _ => true)
-      if bad.isEmpty then
-        some (privateNames m (xs.filterMap (fun v => match v with | .str s => some s | _ => none)), .nil)
-      else some (bad.foldl (fun m _ => m.log Diag.runtime_ExpectedArrayTypeMissmatch) m, .nil)
-    | _ => none
-  else if n == n!"isnil" then
-    match r with
-    | .str s =>
-      let v := match m.ctx.getVar s with
-        | some v => some v
-        | none => varsGet (nsGet m.nss (match m.top? with | some f => f.globals | none => 0)) s
-      some (m, .bool (match v with | some .nil => true | some _ => false | none => true))
-    | .code c => some (m.pushFrame (mkFrame c [] (some .isNil)), .nil)
-    | _ => none
-  else if n == n!"scopename" then
-    match r, m.top? with
-    | .str s, some f =>
-      if f.scopeName.isEmpty then some (m.setTop { f with scopeName := s }, .nil)
-      else some (m.log Diag.runtime_ScopeNameAlreadySet, .nil)
-    | _, _ => none
-  else if n == n!"breakout" then
-    match r with
-    | .str s =>
-      if s.isEmpty then some ({ m with ctx := popClear m.ctx }, .nil)
-      else match breakOutCtx m.ctx s with
-        | some c => some ({ m with ctx := c }, .nil)
-        | none => some (m.log Diag.runtime_ScopeNameNotFound, .nil)
-    | _ => none
-  else if n == n!"throw" then some (throwAny m r)
-  else if n == n!"!" || n == n!"not" then
-    match r with
-    | .bool b => some (m, .bool (!b))
-    | _ => none
-  else if n == n!"-" then
-    match r with
-    | .num d => some (m, .num d.negate)
-    | _ => none
-  else if n == n!"+" then
-    match r with
-    | .num d => some (m, .num d)
-    | .nan => some (m, .nan)
-    | _ => none
-  else if n == n!"case" then
+def uop_call (r : Val) (m : M) : Option OpRes :=
+  match r with
+  | .code is =>
+    let this := (m.ctx.getVar n!"_this").getD .nil
+    frame' m (mkFrame is [(n!"_this", this)])
+  | _ => none
+
+def uop_count (r : Val) (m : M) : Option OpRes :=
+  match r with
+  | .ref id => pure' m (num (m.arr id).length)
+  | _ => none
+
+def uop_if (r : Val) (m : M) : Option OpRes :=
+  match r with
+  | .bool b => pure' m (.ifv b)
+  | _ => none
+
+def uop_while (r : Val) (m : M) : Option OpRes :=
+  match r with
+  | .code c => pure' m (.whilev c)
+  | _ => none
+
+def uop_for (r : Val) (m : M) : Option OpRes :=
+  match r with
+  | .str s => pure' m (.forv s Dec.zero Dec.zero (Dec.ofNat 1))
+  | _ => none
+
+def uop_switch (r : Val) (m : M) : Option OpRes :=
+  pure' m (.sw r false false [])
+
+def uop_try (r : Val) (m : M) : Option OpRes :=
+  match r with
+  | .code c => pure' m (.exc c)
+  | _ => none
+
+def uop_private (r : Val) (m : M) : Option OpRes :=
+  match r with
+  | .str s => privateNames m [s]
+  | .ref id =>
+    let xs := m.arr id
+    let bad := xs.filter (fun v => match v with | .str _ => false | _ => true)
+    if bad.isEmpty then
+      privateNames m (xs.filterMap (fun v => match v with | .str s => some s | _ => none))
+    else pure' (bad.foldl (fun m _ => m.log Diag.runtime_ExpectedArrayTypeMissmatch) m) .nil
+  | _ => none
+
+def uop_isnil (r : Val) (m : M) : Option OpRes :=
+  match r with
+  | .str s =>
+    let v := match m.ctx.getVar s with
+      | some v => some v
+      | none => varsGet (nsGet m.nss (match m.top? with | some f => f.globals | none => 0)) s
+    pure' m (.bool (match v with | some .nil => true | some _ => false | none => true))
+  | .code c => frame' m (mkFrame c [] (some .isNil))
+  | _ => none
+
+def uop_scopename (r : Val) (m : M) : Option OpRes :=
+  match r, m.top? with
+  | .str s, some f =>
+    if f.scopeName.isEmpty then some (m, [.setTop { f with scopeName := s }], .nil)
+    else pure' (m.log Diag.runtime_ScopeNameAlreadySet) .nil
+  | _, _ => none
+
+def uop_breakout (r : Val) (m : M) : Option OpRes :=
+  match r with
+  | .str s => breakOut m .nil s
+  | _ => none
+
+def uop_throw (r : Val) (m : M) : Option OpRes :=
+  throwAny m r
+
+def uop__21 (r : Val) (m : M) : Option OpRes :=
+  match r with
+  | .bool b => pure' m (.bool (!b))
+  | _ => none
+
+def uop__2d (r : Val) (m : M) : Option OpRes :=
+  match r with
+  | .num d => pure' m (.num d.negate)
+  | _ => none
+
+def uop__2b (r : Val) (m : M) : Option OpRes :=
+  match r with
+  | .num d => pure' m (.num d)
+  | .nan => pure' m .nan
+  | _ => none
+
+def uop_case (r : Val) (m : M) : Option OpRes :=
+  match m.ctx.getVar switchMagic with
+  | some (.sw v mn hm tgt) =>
+    let hit := match r, v with
+      | .nil, _ => false
+      | _, .nil => false
+      | _, _ => valEq m.heap false (m.heap.length + 2) r v
+    let s' := Val.sw v (mn || hit) hm tgt
+    some (m, [.setFrames (setWhereFound m.ctx.frames switchMagic s')], s')
+  | _ => pure' (m.log Diag.runtime_MagicVariableTypeMissmatch) .nil
+
+def uop_default (r : Val) (m : M) : Option OpRes :=
+  match r with
+  | .code c =>
     match m.ctx.getVar switchMagic with
     | some (.sw v mn hm tgt) =>
-      let hit := match r, v with
-        | .nil, _ => false
-        | _, .nil => false
-        | _, _ => valEq m.heap false (m.heap.length + 2) r v
-      let s' := Val.sw v (mn || hit) hm tgt
-      some ({ m with ctx := { m.ctx with frames := setWhereFound m.ctx.frames switchMagic s' } }, s')
-    | _ => some (m.log Diag.runtime_MagicVariableTypeMissmatch, .nil)
-  else if n == n!"default" then
-    match r with
-    | .code c =>
-      match m.ctx.getVar switchMagic with
-      | some (.sw v mn hm tgt) =>
-        let s' := if hm then Val.sw v mn hm tgt else Val.sw v mn hm c
-        some ({ m with ctx := { m.ctx with frames := setWhereFound m.ctx.frames switchMagic s' } }, .nil)
-      | _ => some (m.log Diag.runtime_MagicVariableTypeMissmatch, .nil)
-    | _ => none
-  else if n == n!"with" then
-    match r with
-    | .ns id => some (m, .withv id)
-    | _ => none
-  else if n == n!"comment" then
-    match r with
-    | .str _ => some (m, .nil)
-    | _ => none
+      let s' := if hm then Val.sw v mn hm tgt else Val.sw v mn hm c
+      some (m, [.setFrames (setWhereFound m.ctx.frames switchMagic s')], .nil)
+    | _ => pure' (m.log Diag.runtime_MagicVariableTypeMissmatch) .nil
+  | _ => none
+
+def uop_with (r : Val) (m : M) : Option OpRes :=
+  match r with
+  | .ns id => pure' m (.withv id)
+  | _ => none
+
+def uop_comment (r : Val) (m : M) : Option OpRes :=
+  match r with
+  | .str _ => pure' m .nil
+  | _ => none
+
+def unaryOp (n : Name) (r : Val) (m : M) : Option OpRes :=
+  if n == n!"call" then uop_call r m
+  else if n == n!"count" then uop_count r m
+  else if n == n!"if" then uop_if r m
+  else if n == n!"while" then uop_while r m
+  else if n == n!"for" then uop_for r m
+  else if n == n!"switch" then uop_switch r m
+  else if n == n!"try" then uop_try r m
+  else if n == n!"private" then uop_private r m
+  else if n == n!"isnil" then uop_isnil r m
+  else if n == n!"scopename" then uop_scopename r m
+  else if n == n!"breakout" then uop_breakout r m
+  else if n == n!"throw" then uop_throw r m
+  else if n == n!"!" || n == n!"not" then uop__21 r m
+  else if n == n!"-" then uop__2d r m
+  else if n == n!"+" then uop__2b r m
+  else if n == n!"case" then uop_case r m
+  else if n == n!"default" then uop_default r m
+  else if n == n!"with" then uop_with r m
+  else if n == n!"comment" then uop_comment r m
   else none
 
 /-! ### binary operators -/
 
 /-- the iteration constructs: push a frame over `code` with `_x` bound to the first element -/
-def pushIter (m : M) (code : List Instr) (vars : List (Name × Val)) (b : Beh) : M :=
-  m.pushFrame (mkFrame code vars (some b))
+def pushIter (m : M) (code : List Instr) (vars : List (Name × Val)) (b : Beh) : Option OpRes :=
+  frame' m (mkFrame code vars (some b))
 
 def roundIdx (d : Dec) : Int :=
   -- std::round on an exact decimal: round half away from zero
   let twice := Dec.add (Dec.mul d (Dec.ofNat 2)) { neg := d.neg, mant := 1, exp := 0 }
   (Dec.trunc twice) / 2
 
-def binaryOp (n : Name) (l r : Val) (m : M) : Option (M × Val) :=
-  if n == n!"+" then
-    match l, r with
-    | .num a, .num b => some (m, .num (Dec.add a b))
-    | .str a, .str b => some (m, .str (a ++ b))
-    | .ref a, .ref b => let (m', id) := m.alloc (m.arr a ++ m.arr b); some (m', .ref id)
-    | _, _ => none
-  else if n == n!"-" then
-    match l, r with
-    | .num a, .num b => some (m, .num (Dec.sub a b))
-    | _, _ => none
-  else if n == n!"*" then
-    match l, r with
-    | .num a, .num b => some (m, .num (Dec.mul a b))
-    | _, _ => none
-  else if n == n!">" then
-    match l, r with | .num a, .num b => some (m, .bool (Dec.lt b a)) | _, _ => none
-  else if n == n!">=" then
-    match l, r with | .num a, .num b => some (m, .bool (Dec.le b a)) | _, _ => none
-  else if n == n!"<" then
-    match l, r with | .num a, .num b => some (m, .bool (Dec.lt a b)) | _, _ => none
-  else if n == n!"<=" then
-    match l, r with | .num a, .num b => some (m, .bool (Dec.le a b)) | _, _ => none
-  else if n == n!"==" then
-    match l, r with
-    | .num _, .num _ | .str _, .str _ | .bool _, .bool _ => some (m, .bool (valEq m.heap true 2 l r))
-    | _, _ => none
-  else if n == n!"!=" then
-    match l, r with
-    | .num _, .num _ | .str _, .str _ | .bool _, .bool _ => some (m, .bool (!valEq m.heap true 2 l r))
-    | _, _ => none
-  else if n == n!"isequalto" then some (m, .bool (valEq m.heap false (m.heap.length + 2) l r))
-  else if n == n!"&&" || n == n!"and" then
-    match l, r with
-    | .bool a, .bool b => some (m, .bool (a && b))
-    | .bool a, .code c => if a then some (m.pushFrame (mkFrame c), .nil) else some (m, .bool false)
-    | _, _ => none
-  else if n == n!"||" || n == n!"or" then
-    match l, r with
-    | .bool a, .bool b => some (m, .bool (a || b))
-    | .bool a, .code c => if a then some (m, .bool true) else some (m.pushFrame (mkFrame c), .nil)
-    | _, _ => none
-  else if n == n!"then" then
-    match l, r with
-    | .ifv b, .code c => if b then some (m.pushFrame (mkFrame c), .nil) else some (m, .nil)
-    | .ifv b, .ref id =>
-      let xs := m.arr id
-      if xs.length != 2 then some (m.log Diag.runtime_ExpectedArraySizeMissmatch, .nil)
-      else
-        let el0 := nth xs 0
-        let el1 := nth xs 1
-        let isCode := fun (v : Val) => match v with | .code _ => true | _ => false
-        if b then
-          let m1 := if isCode el1 then m else m.log Diag.runtime_ExpectedArrayTypeMissmatchWeak
-          match el0 with
-          | .code c => some (m1.pushFrame (mkFrame c), .nil)
-          | _ => some (m1.log Diag.runtime_ExpectedArrayTypeMissmatch, .nil)
-        else
-          let m1 := if isCode el0 then m else m.log Diag.runtime_ExpectedArrayTypeMissmatchWeak
-          match el1 with
-          | .code c => some (m1.pushFrame (mkFrame c), .nil)
-          | _ => some (m1.log Diag.runtime_ExpectedArrayTypeMissmatch, .nil)
-    | _, _ => none
-  else if n == n!"else" then
-    match l, r with
-    | .code _, .code _ => let (m', id) := m.alloc [l, r]; some (m', .ref id)
-    | _, _ => none
-  else if n == n!"exitwith" then
-    match l, r, m.top? with
-    | .ifv b, .code c, some f =>
+def bop__2b (l r : Val) (m : M) : Option OpRes :=
+  match l, r with
+  | .num a, .num b => pure' m (.num (Dec.add a b))
+  | .str a, .str b => pure' m (.str (a ++ b))
+  | .ref a, .ref b => let (m', id) := m.alloc (m.arr a ++ m.arr b); pure' m' (.ref id)
+  | _, _ => none
+
+def bop__2d (l r : Val) (m : M) : Option OpRes :=
+  match l, r with
+  | .num a, .num b => pure' m (.num (Dec.sub a b))
+  | _, _ => none
+
+def bop__2a (l r : Val) (m : M) : Option OpRes :=
+  match l, r with
+  | .num a, .num b => pure' m (.num (Dec.mul a b))
+  | _, _ => none
+
+def bop__3e (l r : Val) (m : M) : Option OpRes :=
+  match l, r with | .num a, .num b => pure' m (.bool (Dec.lt b a)) | _, _ => none
+
+def bop__3e_3d (l r : Val) (m : M) : Option OpRes :=
+  match l, r with | .num a, .num b => pure' m (.bool (Dec.le b a)) | _, _ => none
+
+def bop__3c (l r : Val) (m : M) : Option OpRes :=
+  match l, r with | .num a, .num b => pure' m (.bool (Dec.lt a b)) | _, _ => none
+
+def bop__3c_3d (l r : Val) (m : M) : Option OpRes :=
+  match l, r with | .num a, .num b => pure' m (.bool (Dec.le a b)) | _, _ => none
+
+def bop__3d_3d (l r : Val) (m : M) : Option OpRes :=
+  match l, r with
+  | .num _, .num _ | .str _, .str _ | .bool _, .bool _ => pure' m (.bool (valEq m.heap true 2 l r))
+  | _, _ => none
+
+def bop__21_3d (l r : Val) (m : M) : Option OpRes :=
+  match l, r with
+  | .num _, .num _ | .str _, .str _ | .bool _, .bool _ => pure' m (.bool (!valEq m.heap true 2 l r))
+  | _, _ => none
+
+def bop_isequalto (l r : Val) (m : M) : Option OpRes :=
+  pure' m (.bool (valEq m.heap false (m.heap.length + 2) l r))
+
+def bop__26_26 (l r : Val) (m : M) : Option OpRes :=
+  match l, r with
+  | .bool a, .bool b => pure' m (.bool (a && b))
+  | .bool a, .code c => if a then frame' m (mkFrame c) else pure' m (.bool false)
+  | _, _ => none
+
+def bop__7c_7c (l r : Val) (m : M) : Option OpRes :=
+  match l, r with
+  | .bool a, .bool b => pure' m (.bool (a || b))
+  | .bool a, .code c => if a then pure' m (.bool true) else frame' m (mkFrame c)
+  | _, _ => none
+
+def bop_then (l r : Val) (m : M) : Option OpRes :=
+  match l, r with
+  | .ifv b, .code c => if b then frame' m (mkFrame c) else pure' m .nil
+  | .ifv b, .ref id =>
+    let xs := m.arr id
+    if xs.length != 2 then pure' (m.log Diag.runtime_ExpectedArraySizeMissmatch) .nil
+    else
+      let el0 := nth xs 0
+      let el1 := nth xs 1
+      let isCode := fun (v : Val) => match v with | .code _ => true | _ => false
       if b then
-        -- current_frame().die(): seek to end, suppress the exit behaviour
-        let m1 := m.setTop { f with pc := f.code.length + 1, die := true }
-        some (m1.pushFrame (mkFrame c), .nil)
-      else some (m, .nil)
-    | _, _, _ => none
-  else if n == n!"do" then
-    match l, r with
-    | .whilev cond, .code body =>
-      if cond.isEmpty then some (m.log Diag.runtime_ConditionEmpty, .nil)
-      else some (m.pushFrame (mkFrame cond [] (some (.whileB false 0 cond body))), .nil)
-    | .forv var frm to step, .code body =>
-      let stepZero := step.mant == 0
-      let skip := !stepZero && (if !step.neg then Dec.lt to frm else Dec.lt frm to)
-      if skip then some (m, .nil)
-      else some (m.pushFrame (mkFrame body [(lower var, .num frm)] (some (.forB var to step))), .nil)
-    | .sw _ _ _ _, .code body =>
-      some (m.pushFrame (mkFrame body [(switchMagic, l)] (some (.switchB false))), .nil)
-    | .withv id, .code body => some (m.pushFrame (mkFrame body [] none none id), .nil)
-    | _, _ => none
-  else if n == n!"from" then
-    match l, r with | .forv v _ t s, .num d => some (m, .forv v d t s) | _, _ => none
-  else if n == n!"to" then
-    match l, r with | .forv v f _ s, .num d => some (m, .forv v f d s) | _, _ => none
-  else if n == n!"step" then
-    match l, r with | .forv v f t _, .num d => some (m, .forv v f t d) | _, _ => none
-  else if n == n!"foreach" then
-    match l, r with
-    | .code c, .ref id =>
-      let xs := m.arr id
-      if xs.isEmpty then some (m, .nil)
-      else some (pushIter m c [(n!"_foreachindex", num 0), (n!"_x", nth xs 0)] (.forEach id 0 xs.length), .nil)
-    | _, _ => none
-  else if n == n!"count" then
-    match l, r with
-    | .code c, .ref id =>
-      let xs := m.arr id
-      if xs.isEmpty then some (m, num 0)
-      else some (pushIter m c [(n!"_x", nth xs 0)] (.count id 0 xs.length 0), .nil)
-    | _, _ => none
-  else if n == n!"select" then
-    match l, r with
-    | .ref id, .code c =>
-      let xs := m.arr id
-      if xs.isEmpty then let (m', nid) := m.alloc []; some (m', .ref nid)
-      else some (pushIter m c [(n!"_x", nth xs 0)] (.select id [] 0 xs.length), .nil)
-    | .ref id, .num d =>
-      let xs := m.arr id
-      let idx := roundIdx d
-      if (xs.length : Int) < idx || idx < 0 then some (m.log Diag.runtime_IndexOutOfRange, .nil)
-      else if (xs.length : Int) == idx then some (m.log Diag.runtime_IndexEqualsRange, .nil)
-      else some (m, nth xs idx.toNat)
-    | _, _ => none
-  else if n == n!"apply" then
-    match l, r with
-    | .ref id, .code c =>
-      let xs := m.arr id
-      if xs.isEmpty then let (m', nid) := m.alloc []; some (m', .ref nid)
-      else some (pushIter m c [(n!"_x", nth xs 0)] (.apply id [] 0 xs.length), .nil)
-    | _, _ => none
-  else if n == n!"findif" then
-    match l, r with
-    | .ref id, .code c =>
-      let xs := m.arr id
-      if xs.isEmpty then some (m, .num (Dec.ofInt (-1)))
-      else some (pushIter m c [(n!"_x", nth xs 0)] (.findIf id 0 xs.length), .nil)
-    | _, _ => none
-  else if n == n!"pushback" then
-    match l with
-    | .ref id =>
-      let xs := m.arr id
-      let cyc := match r with
-        | .ref j => j == id || reaches m.heap (m.heap.length + 1) id (m.arr j)
-        | _ => false
-      if cyc then some (m.log Diag.runtime_ArrayRecursion, .nil)
-      else some (m.setArr id (xs ++ [r]), num xs.length)
-    | _ => none
-  else if n == n!"catch" then
-    match l, r with
-    | .exc body, .code handler => some (m.pushFrame (mkFrame body [] none (some (.catchB handler))), .nil)
-    | _, _ => none
-  else if n == n!"except__" then
-    match l, r with
-    | .code body, .code handler => some (m.pushFrame (mkFrame body [] none (some (.exceptB handler false))), .nil)
-    | _, _ => none
-  else if n == n!":" then
-    match l, r with
-    | .sw _ _ _ _, .code c =>
-      match m.ctx.getVar switchMagic, m.top? with
-      | some (.sw v mn hm tgt), some _ =>
-        if !hm && mn then
-          let s' := Val.sw v false true c
-          let fs := setWhereFound m.ctx.frames switchMagic s'
-          -- seek the *current* frame to its end
-          let fs' := match fs with
-            | f :: rest => { f with pc := f.code.length + 1 } :: rest
-            | [] => []
-          some ({ m with ctx := { m.ctx with frames := fs' } }, .nil)
-        else some ({ m with ctx := m.ctx }, .nil)
-      | _, _ => some (m.log Diag.runtime_MagicVariableTypeMissmatch, .nil)
-    | _, _ => none
-  else if n == n!"call" then
-    match r with
-    | .code c => some (m.pushFrame (mkFrame c [(n!"_this", l)]), .nil)
-    | _ => none
-  else if n == n!"breakout" then
-    match r with
-    | .str s =>
-      if s.isEmpty then some ({ m with ctx := popClear m.ctx }, l)
-      else match breakOutCtx m.ctx s with
-        | some c => some ({ m with ctx := c }, l)
-        | none => some (m.log Diag.runtime_ScopeNameNotFound, .nil)
-    | _ => none
-  else if n == n!"throw" then
-    match l with
-    | .ifv b => if b then some (throwAny m r) else some (m, .nil)
-    | _ => none
-  else if n == n!"getvariable" then
-    match l, r with
-    | .ns id, .str s => some (m, (varsGet (nsGet m.nss id) s).getD .nil)
-    | .ns id, .ref a =>
-      let xs := m.arr a
-      if xs.length != 2 then some ((m.log Diag.runtime_ExpectedArraySizeMissmatch).log Diag.runtime_ReturningNil, .nil)
-      else match nth xs 0 with
-        | .str s => some (m, (varsGet (nsGet m.nss id) s).getD (nth xs 1))
-        | _ => some ((m.log Diag.runtime_ExpectedArrayTypeMissmatch).log Diag.runtime_ReturningNil, .nil)
-    | _, _ => none
-  else if n == n!"setvariable" then
-    match l, r with
-    | .ns id, .ref a =>
-      let xs := m.arr a
-      if xs.length != 2 then some (m.log Diag.runtime_ExpectedArraySizeMissmatch, .nil)
-      else match nth xs 0 with
-        | .str s => some ({ m with nss := nsSet m.nss id (varsSet (nsGet m.nss id) s (nth xs 1)) }, .nil)
-        | _ => some (m.log Diag.runtime_ExpectedArrayTypeMissmatch, .nil)
-    | _, _ => none
+        let m1 := if isCode el1 then m else m.log Diag.runtime_ExpectedArrayTypeMissmatchWeak
+        match el0 with
+        | .code c => frame' m1 (mkFrame c)
+        | _ => pure' (m1.log Diag.runtime_ExpectedArrayTypeMissmatch) .nil
+      else
+        let m1 := if isCode el0 then m else m.log Diag.runtime_ExpectedArrayTypeMissmatchWeak
+        match el1 with
+        | .code c => frame' m1 (mkFrame c)
+        | _ => pure' (m1.log Diag.runtime_ExpectedArrayTypeMissmatch) .nil
+  | _, _ => none
+
+def bop_else (l r : Val) (m : M) : Option OpRes :=
+  match l, r with
+  | .code _, .code _ => let (m', id) := m.alloc [l, r]; pure' m' (.ref id)
+  | _, _ => none
+
+def bop_exitwith (l r : Val) (m : M) : Option OpRes :=
+  match l, r, m.top? with
+  | .ifv b, .code c, some f =>
+    if b then
+      -- current_frame().die(): seek to end, suppress the exit behaviour; then push the block
+      some (m, [.setTop { f with pc := f.code.length + 1, die := true }, .pushFrame (mkFrame c)], .nil)
+    else pure' m .nil
+  | _, _, _ => none
+
+def bop_do (l r : Val) (m : M) : Option OpRes :=
+  match l, r with
+  | .whilev cond, .code body =>
+    if cond.isEmpty then pure' (m.log Diag.runtime_ConditionEmpty) .nil
+    else frame' m (mkFrame cond [] (some (.whileB false 0 cond body)))
+  | .forv var frm to step, .code body =>
+    let stepZero := step.mant == 0
+    let skip := !stepZero && (if !step.neg then Dec.lt to frm else Dec.lt frm to)
+    if skip then pure' m .nil
+    else frame' m (mkFrame body [(lower var, .num frm)] (some (.forB var to step)))
+  | .sw _ _ _ _, .code body => frame' m (mkFrame body [(switchMagic, l)] (some (.switchB false)))
+  | .withv id, .code body => frame' m (mkFrame body [] none none id)
+  | _, _ => none
+
+def bop_from (l r : Val) (m : M) : Option OpRes :=
+  match l, r with | .forv v _ t s, .num d => pure' m (.forv v d t s) | _, _ => none
+
+def bop_to (l r : Val) (m : M) : Option OpRes :=
+  match l, r with | .forv v f _ s, .num d => pure' m (.forv v f d s) | _, _ => none
+
+def bop_step (l r : Val) (m : M) : Option OpRes :=
+  match l, r with | .forv v f t _, .num d => pure' m (.forv v f t d) | _, _ => none
+
+def bop_foreach (l r : Val) (m : M) : Option OpRes :=
+  match l, r with
+  | .code c, .ref id =>
+    let xs := m.arr id
+    if xs.isEmpty then pure' m .nil
+    else pushIter m c [(n!"_foreachindex", num 0), (n!"_x", nth xs 0)] (.forEach id 0 xs.length)
+  | _, _ => none
+
+def bop_count (l r : Val) (m : M) : Option OpRes :=
+  match l, r with
+  | .code c, .ref id =>
+    let xs := m.arr id
+    if xs.isEmpty then pure' m (num 0)
+    else pushIter m c [(n!"_x", nth xs 0)] (.count id 0 xs.length 0)
+  | _, _ => none
+
+def bop_select (l r : Val) (m : M) : Option OpRes :=
+  match l, r with
+  | .ref id, .code c =>
+    let xs := m.arr id
+    if xs.isEmpty then let (m', nid) := m.alloc []; pure' m' (.ref nid)
+    else pushIter m c [(n!"_x", nth xs 0)] (.select id [] 0 xs.length)
+  | .ref id, .num d =>
+    let xs := m.arr id
+    let idx := roundIdx d
+    if (xs.length : Int) < idx || idx < 0 then pure' (m.log Diag.runtime_IndexOutOfRange) .nil
+    else if (xs.length : Int) == idx then pure' (m.log Diag.runtime_IndexEqualsRange) .nil
+    else pure' m (nth xs idx.toNat)
+  | _, _ => none
+
+def bop_apply (l r : Val) (m : M) : Option OpRes :=
+  match l, r with
+  | .ref id, .code c =>
+    let xs := m.arr id
+    if xs.isEmpty then let (m', nid) := m.alloc []; pure' m' (.ref nid)
+    else pushIter m c [(n!"_x", nth xs 0)] (.apply id [] 0 xs.length)
+  | _, _ => none
+
+def bop_findif (l r : Val) (m : M) : Option OpRes :=
+  match l, r with
+  | .ref id, .code c =>
+    let xs := m.arr id
+    if xs.isEmpty then pure' m (.num (Dec.ofInt (-1)))
+    else pushIter m c [(n!"_x", nth xs 0)] (.findIf id 0 xs.length)
+  | _, _ => none
+
+def bop_pushback (l r : Val) (m : M) : Option OpRes :=
+  match l with
+  | .ref id =>
+    let xs := m.arr id
+    let cyc := match r with
+      | .ref j => j == id || reaches m.heap (m.heap.length + 1) id (m.arr j)
+      | _ => false
+    if cyc then pure' (m.log Diag.runtime_ArrayRecursion) .nil
+    else pure' (m.setArr id (xs ++ [r])) (num xs.length)
+  | _ => none
+
+def bop_catch (l r : Val) (m : M) : Option OpRes :=
+  match l, r with
+  | .exc body, .code handler => frame' m (mkFrame body [] none (some (.catchB handler)))
+  | _, _ => none
+
+def bop_except_5f_5f (l r : Val) (m : M) : Option OpRes :=
+  match l, r with
+  | .code body, .code handler => frame' m (mkFrame body [] none (some (.exceptB handler false)))
+  | _, _ => none
+
+def bop__3a (l r : Val) (m : M) : Option OpRes :=
+  match l, r with
+  | .sw _ _ _ _, .code c =>
+    match m.ctx.getVar switchMagic, m.top? with
+    | some (.sw v mn hm _), some _ =>
+      if !hm && mn then
+        let s' := Val.sw v false true c
+        let fs := setWhereFound m.ctx.frames switchMagic s'
+        -- … and seek the *current* frame to its end
+        let fs' := match fs with
+          | f :: rest => { f with pc := f.code.length + 1 } :: rest
+          | [] => []
+        some (m, [.setFrames fs'], .nil)
+      else pure' m .nil
+    | _, _ => pure' (m.log Diag.runtime_MagicVariableTypeMissmatch) .nil
+  | _, _ => none
+
+def bop_call (l r : Val) (m : M) : Option OpRes :=
+  match r with
+  | .code c => frame' m (mkFrame c [(n!"_this", l)])
+  | _ => none
+
+def bop_breakout (l r : Val) (m : M) : Option OpRes :=
+  match r with
+  | .str s => breakOut m l s
+  | _ => none
+
+def bop_throw (l r : Val) (m : M) : Option OpRes :=
+  match l with
+  | .ifv b => if b then throwAny m r else pure' m .nil
+  | _ => none
+
+def bop_getvariable (l r : Val) (m : M) : Option OpRes :=
+  match l, r with
+  | .ns id, .str s => pure' m ((varsGet (nsGet m.nss id) s).getD .nil)
+  | .ns id, .ref a =>
+    let xs := m.arr a
+    if xs.length != 2 then pure' ((m.log Diag.runtime_ExpectedArraySizeMissmatch).log Diag.runtime_ReturningNil) .nil
+    else match nth xs 0 with
+      | .str s => pure' m ((varsGet (nsGet m.nss id) s).getD (nth xs 1))
+      | _ => pure' ((m.log Diag.runtime_ExpectedArrayTypeMissmatch).log Diag.runtime_ReturningNil) .nil
+  | _, _ => none
+
+def bop_setvariable (l r : Val) (m : M) : Option OpRes :=
+  match l, r with
+  | .ns id, .ref a =>
+    let xs := m.arr a
+    if xs.length != 2 then pure' (m.log Diag.runtime_ExpectedArraySizeMissmatch) .nil
+    else match nth xs 0 with
+      | .str s => pure' { m with nss := nsSet m.nss id (varsSet (nsGet m.nss id) s (nth xs 1)) } .nil
+      | _ => pure' (m.log Diag.runtime_ExpectedArrayTypeMissmatch) .nil
+  | _, _ => none
+
+def binaryOp (n : Name) (l r : Val) (m : M) : Option OpRes :=
+  if n == n!"+" then bop__2b l r m
+  else if n == n!"-" then bop__2d l r m
+  else if n == n!"*" then bop__2a l r m
+  else if n == n!">" then bop__3e l r m
+  else if n == n!">=" then bop__3e_3d l r m
+  else if n == n!"<" then bop__3c l r m
+  else if n == n!"<=" then bop__3c_3d l r m
+  else if n == n!"==" then bop__3d_3d l r m
+  else if n == n!"!=" then bop__21_3d l r m
+  else if n == n!"isequalto" then bop_isequalto l r m
+  else if n == n!"&&" || n == n!"and" then bop__26_26 l r m
+  else if n == n!"||" || n == n!"or" then bop__7c_7c l r m
+  else if n == n!"then" then bop_then l r m
+  else if n == n!"else" then bop_else l r m
+  else if n == n!"exitwith" then bop_exitwith l r m
+  else if n == n!"do" then bop_do l r m
+  else if n == n!"from" then bop_from l r m
+  else if n == n!"to" then bop_to l r m
+  else if n == n!"step" then bop_step l r m
+  else if n == n!"foreach" then bop_foreach l r m
+  else if n == n!"count" then bop_count l r m
+  else if n == n!"select" then bop_select l r m
+  else if n == n!"apply" then bop_apply l r m
+  else if n == n!"findif" then bop_findif l r m
+  else if n == n!"pushback" then bop_pushback l r m
+  else if n == n!"catch" then bop_catch l r m
+  else if n == n!"except__" then bop_except_5f_5f l r m
+  else if n == n!":" then bop__3a l r m
+  else if n == n!"call" then bop_call l r m
+  else if n == n!"breakout" then bop_breakout l r m
+  else if n == n!"throw" then bop_throw l r m
+  else if n == n!"getvariable" then bop_getvariable l r m
+  else if n == n!"setvariable" then bop_setvariable l r m
   else none
+
+/-- run an operator result: the stack effects are applied to the context the operator started
+    from, whatever the operator did to its copy; then the returned value is pushed -/
+def finishOp (m0 : M) (res : OpRes) : M :=
+  let (m', effs, v) := res
+  let m1 := applyEffs effs { m' with ctx := m0.ctx }
+  { m1 with ctx := m1.ctx.pushV v }
 
 end Sqf.VM
